@@ -50,6 +50,8 @@ Definition must_report (p : plugin) (typs : list aty) : bool :=
   | PUnique, [ASlice e] => has_unsup false false e
   | PMem, [ASig ps _ v] => v || (negb (can_equal_all ps) && has_unsup_any false false ps)
   | PToerror, [_; ASig _ _ v] => v
+  | (PCurry | PFlip), [ASig _ _ v] => v
+  | PApply, [ASig _ _ v; _] => v
   | PSet, [ASlice e] => negb (go_comparable e)
   | _, _ => false
   end.
@@ -90,27 +92,31 @@ with has_named_boolish_key_any (l : atys) : bool :=
 Definition c01_class (p : plugin) (typs : list aty) : bool :=
   match p with
   | PDeepcopy | PClone => existsb has_noncopy_mapkey typs
-  | PCompare | PHash | PMin | PMax | PMem | PUnique =>
-      existsb has_named_boolish_key typs
-  | PSort =>
-      existsb has_named_boolish_key typs
-      || match typs with [ASlice e] => named_boolish e | _ => false end
+  (* (sorting a named bool/complex key passed N to deriveCompare(bool,bool): repaired upstream by
+     1d2766b, no longer a class) *)
+  | PDup =>     (* `chan <-chan T` is printed without parentheses and reads as `chan<- chan T` *)
+      match typs with [AChan _ (AChan DRecv _)] => true | _ => false end
   | _ => false
   end.
 
 (* ---- open findings of C09 (known_findings.d/C09.json), identified narrowly ---- *)
 Definition is_unil (t : aty) : bool := match t with ABasic KUNil => true | _ => false end.
+Definition is_untyped_arg (t : aty) : bool := match t with ABasic k => is_untyped k | _ => false end.
 Definition is_sendonly (t : aty) : bool := match t with AChan DSend _ => true | _ => false end.
 Definition known_class (p : plugin) (typs : list aty) : string :=
   match p with
-  | PGostring | PHash | PTuple | PKeys | PSet | PSort | PUnique | PClone =>
-      if existsb is_unil typs then "untyped-nil-arg" else ""
+  | PGostring | PHash | PTuple | PKeys | PSet | PSort | PUnique =>
+      if existsb is_unil typs then "untyped-arg" else ""
+  | PClone =>      (* prints the type of a pointer to the argument: `*untyped string` *)
+      if existsb is_untyped_arg typs then "untyped-arg" else ""
   | PJoin =>
       match typs with
       | AChan _ (AChan _ _) :: _ => ""
-      | AChan _ _ :: _ => if existsb is_sendonly typs then "join-sendonly-chan" else ""
+      | AChan _ _ :: _ => if existsb is_sendonly typs then "sendonly-chan" else ""
       | _ => ""
       end
+  | PFmap => match typs with [_; AChan DSend _] => "sendonly-chan" | _ => "" end
+  | PDup => match typs with [AChan DSend _] => "sendonly-chan" | _ => "" end
   | _ => ""
   end.
 
